@@ -255,6 +255,8 @@ func (p Package) NewFuncEx(name string, sig *types.Signature, bg Background, has
 	fn := llvm.AddFunction(p.mod, name, t.ll)
 	if bg == InGo {
 		fn.AddFunctionAttr(p.nullPointerIsValidAttr)
+	} else if bg == InC {
+		addIntExtAttrs(fn, sig)
 	}
 	if instantiated {
 		fn.SetLinkage(llvm.LinkOnceAnyLinkage)
@@ -265,6 +267,33 @@ func (p Package) NewFuncEx(name string, sig *types.Signature, bg Background, has
 	ret := newFunction(fn, t, p, p.Prog, hasFreeVars)
 	p.fns[name] = ret
 	return ret
+}
+
+// addIntExtAttrs marks the integer parameters of a C function that are narrower
+// than 32 bits as signext/zeroext: C compilers rely on the caller to extend such an
+// argument to 32 bits (clang does not extend it again in the callee).
+func addIntExtAttrs(fn llvm.Value, sig *types.Signature) {
+	ctx := fn.GlobalParent().Context()
+	add := func(index int, t types.Type) {
+		b, ok := t.Underlying().(*types.Basic)
+		if !ok {
+			return
+		}
+		var name string
+		switch b.Kind() {
+		case types.Int8, types.Int16:
+			name = "signext"
+		case types.Uint8, types.Uint16, types.Bool:
+			name = "zeroext"
+		default:
+			return
+		}
+		fn.AddAttributeAtIndex(index, ctx.CreateEnumAttribute(llvm.AttributeKindID(name), 0))
+	}
+	params := sig.Params()
+	for i, n := 0, fn.ParamsCount(); i < params.Len() && i < n; i++ {
+		add(i+1, params.At(i).Type())
+	}
 }
 
 // FuncOf returns a function by name.
